@@ -257,17 +257,32 @@ def apply_fault(sess, a):
             break
     ctx.count('fault_under:' + under)
     where = f'formula {fi}, position {list(path)} (under {under}), via {entry}'
+    # operator kinds the generator of valid formulas never nests that way carry the faulty element in a third of the cases:
+    # a comparison of a comparison, a set membership, a logical operator
+    cw = (salt // 8) % 6
+
+    def carried(x_):
+        if cw == 0:
+            return ['==', ['>', x_, ['num', 2.0]], ['>', ['var', 'c0'], ['num', 1.5]]]
+        if cw == 1:
+            return ['in', x_, [1.0, 2.0]]
+        if cw == 2:
+            return ['and', ['>', x_, ['num', 0.5]], ['num', 1.0]]
+        return x_
+    carrier_name = {0: ', inside a comparison of a comparison', 1: ', as the argument of a set membership',
+                    2: ', inside a logical operator'}.get(cw, '')
+    where += carrier_name
     if kind == 'absent_column':
-        ok, engine, e = expect_error(sess, f'absent column planted in {where}', lambda: run(plant(base, path, ['absent', 'nope'])), survey=survey)
+        ok, engine, e = expect_error(sess, f'absent column planted in {where}', lambda: run(plant(base, path, carried(['absent', 'nope']))), survey=survey)
     elif kind == 'dup_name':
         ok, engine, e = expect_error(sess, f'parameter named like column c0 planted in {where}',
-                                     lambda: run(plant(base, path, ['betanamed', 'c0'])), survey=survey)
+                                     lambda: run(plant(base, path, carried(['betanamed', 'c0']))), survey=survey)
     elif kind == 'draws_outside':
         ok, engine, e = expect_error(sess, f'draws outside MonteCarlo planted in {where}',
-                                     lambda: run(plant(base, path, ['rawdraws'])), survey=survey)
+                                     lambda: run(plant(base, path, carried(['rawdraws']))), survey=survey)
     elif kind == 'rv_outside':
         ok, engine, e = expect_error(sess, f'integration variable outside Integrate planted in {where}',
-                                     lambda: run(plant(base, path, ['rawrv'])), survey=survey)
+                                     lambda: run(plant(base, path, carried(['rawrv']))), survey=survey)
     elif kind == 'hess_without_grad':
         def f():
             e_ = sess.expr(fi)
@@ -378,7 +393,9 @@ def apply_fault(sess, a):
         def f():
             fb = ref.Builder(eb.beta_specs(), pool=sess.pool, share_elementary=False)
             inner = fb.build(['exp', ['*', ['num', -0.1], ['*', ['beta', 'b0'], ['var', 'c0']]]])
-            e_ = ex.log(ex.PanelLikelihoodTrajectory(inner)) + fb.build(plant(base, path, ['var', 'c1']))
+            # the variable outside the trajectory: an ordinary column, or the column that identifies the individuals
+            outside_ = ['var', 'ch' if (salt // 16) % 3 == 0 else 'c1']
+            e_ = ex.log(ex.PanelLikelihoodTrajectory(inner)) + fb.build(plant(base, path, outside_))
             b = bio.BIOGEME(d, _as_given(salt, e_), parameters=params())
             return b.calculate_likelihood([0.1] * len(b.free_beta_names), scaled=False)
         ok, engine, e = expect_error(sess, f'data variables outside the trajectory on panel data (formula {fi}, '
